@@ -298,6 +298,33 @@ def check_plane(t, name, V, F, n, d, dclass, tier, case):
                 wl = sum(np.linalg.norm(np.subtract(*s)) for s in want)
                 if abs(sec.length - wl) > 1e-7 * max(1, wl):
                     t.violation(f"section: path length differs from the intersection length [{cls}]", case, {"got": float(sec.length), "want": float(wl)})
+                # the planar form of the section: lifted back by the transform it comes with, its points
+                # are the section's points again - on the plane and on the surface - for every admissible frame
+                from trimesh.geometry import plane_transform
+
+                centre = V.mean(axis=0)
+                frames = (
+                    ("fitted frame", None),
+                    ("frame in the section plane", plane_transform(origin=origin, normal=nrm / ln)),
+                    ("parallel frame off the section plane", plane_transform(origin=centre + np.array([0.75, -1.5, 2.25]), normal=nrm / ln)),
+                    ("parallel frame off the section plane, normal reversed", plane_transform(origin=-centre - np.array([1.25, 0.5, -0.75]), normal=-nrm / ln)),
+                )
+                for fname, T in frames:
+                    t.evaluations += 1
+                    try:
+                        planar, to3 = sec.to_2D() if T is None else sec.to_2D(to_2D=T.copy())
+                        pv = np.asarray(planar.vertices, dtype=float)
+                        back = np.column_stack((pv, np.zeros(len(pv)), np.ones(len(pv)))) @ np.asarray(to3, dtype=float).T
+                        back = back[:, :3]
+                        ok = on_plane_and_surface(back, f"section.to_2D [{fname}]: lifted back by the returned transform")
+                        if ok and np.abs(back - np.asarray(sec.vertices)).max() > 10 * tol:
+                            t.violation(f"section.to_2D [{fname}]: lifted back by the returned transform the vertices are not the section's vertices [{cls}]", case, {"distance": float(np.abs(back - np.asarray(sec.vertices)).max())})
+                        if not np.allclose(planar.metadata["to_3D"], to3, atol=1e-12):
+                            t.violation(f"section.to_2D [{fname}]: metadata to_3D differs from the returned transform [{cls}]", case, {})
+                        if abs(planar.length - wl) > 1e-7 * max(1, wl):
+                            t.violation(f"section.to_2D [{fname}]: planar length differs from the intersection length [{cls}]", case, {"got": float(planar.length), "want": float(wl)})
+                    except Exception as e:
+                        t.violation(f"section.to_2D [{fname}] raises {type(e).__name__} [{cls}]", case, {"exc": repr(e)[:200]})
         except Exception as e:
             t.violation(f"section raises {type(e).__name__} [{cls}]", case, {"exc": repr(e)[:200]})
     # face subsets
@@ -594,6 +621,6 @@ def main(run):
         "exhaustive": True,
         "meshes": list(fam),
         "directions": len(DIRECTIONS),
-        "rule": "7 lattice meshes x 15 directions x every vertex height and points strictly between consecutive vertex heights (+ one outside); exact Fraction side classification; mesh_plane / section / section_multiplane (non-unit normals) / local_faces / slice_plane both sides / capped slices (all engines in thorough); every family mesh in two general-position placements (rotation with rational sines, scale, shift: coordinates inexact) x the plane of every one of its faces: opposite slices partition the area, capped halves of convex solids the volume. Non-trivial = plane properly crosses at least one triangle",
+        "rule": "7 lattice meshes x 15 directions x every vertex height and points strictly between consecutive vertex heights (+ one outside); exact Fraction side classification; mesh_plane / section / section.to_2D in 4 frames (fitted, in-plane, two parallel offset frames) lifted back by the returned transform / section_multiplane (non-unit normals) / local_faces / slice_plane both sides / capped slices (all engines in thorough); every family mesh in two general-position placements (rotation with rational sines, scale, shift: coordinates inexact) x the plane of every one of its faces: opposite slices partition the area, capped halves of convex solids the volume. Non-trivial = plane properly crosses at least one triangle",
     }
     return run.finish(cov, assumptions=["coverage and closed-loop clauses are only demanded when the plane contains no mesh edge / no vertex", "on-surface distance by brute force over all triangles, tolerance 1e-9 x scale"])
